@@ -10,7 +10,7 @@ import (
 )
 
 func init() {
-	register("C16", "Structural clauses of copy's include/exclude handling, decided on all paths of copier.copy, copyDirectory and createParentDirs: after an include miss or an exclude hit no creating, destructive or metadata call is reachable for the entry (copyDirectory with include=false creates nothing and reports created=false); deferred ancestors are created (checked) before any content; an ancestor created on demand receives the source directory's file info and xattrs and is marked copied; include and exclude match infos are never crossed, including the positional arguments of the recursion; matchers are built with patternmatcher.New from the caller's lists and queried with MatchesUsingParentResults like the walk. Does not decide equality of the copied set with the reference filter.", runC16)
+	register("C16", "Structural clauses of copy's include/exclude handling, decided on all paths of copier.copy, copyDirectory and createParentDirs: after an include miss or an exclude hit no creating, destructive or metadata call is reachable for the entry (copyDirectory with include=false creates nothing and reports created=false); deferred ancestors are created (checked) before any content; an ancestor created on demand receives the source directory's file info and xattrs and is marked copied; include and exclude match infos are never crossed, including the positional arguments of the recursion; matchers are built with patternmatcher.New from the caller's lists and queried with MatchesUsingParentResults like the walk. A source directory is always descended, whatever the verdicts (no pruning by pattern text). Does not decide equality of the copied set with the reference filter.", runC16)
 }
 
 func runC16(c *Ctx) {
@@ -19,6 +19,43 @@ func runC16(c *Ctx) {
 	r16_3(c, "R16.3")
 	r16_4(c, "R16.4")
 	r16_5(c, "R16.5")
+	r16_6(c, "R16.6")
+}
+
+// R16.6: whether a directory is selected or not, it is descended.
+//
+// The reference filter evaluates every entry on its own; a pattern below an
+// excluded or not-included directory ('!vendor/*/LICENSE', 'a/*/c') may
+// select entries inside it. The copier has no pruning shortcut: for a source
+// directory that was read without error, every success return of copier.copy
+// comes after the call of copyDirectory.
+func r16_6(c *Ctx, rule string) {
+	c.R.Rule(rule, "copier.copy: with the source entry a directory, every success return is preceded by the call of copyDirectory, whatever the include/exclude verdicts (no pruning of directories by pattern text)")
+	f := getCopyFn(c, rule)
+	if f == nil {
+		return
+	}
+	x := c.explorer(f.copy)
+	as := map[string]bool{}
+	for _, k := range c.dirTestKeys(f.copy, x, func(v ssa.Value) bool {
+		// the source entry's own FileInfo: the Lstat of src, not of the target
+		return c.DerivesFrom(v, func(y ssa.Value) bool {
+			call, ok := y.(*ssa.Call)
+			if !ok || c.P.CalleeName(call) != "os.Lstat" {
+				return false
+			}
+			q, isP := eng.Strip(call.Call.Args[0]).(*ssa.Parameter)
+			return isP && c.P.ParamName(q) == "src"
+		}, 4)
+	}) {
+		as[k] = true
+	}
+	if len(as) == 0 {
+		c.R.Undecided(rule, c.name(f.copy)+"/directories-descended", c.P.Pos(f.copy.Pos()), "no directory test of the source entry found in copier.copy")
+		return
+	}
+	isCD := func(in ssa.Instruction) bool { return in == ssa.Instruction(f.cdCall) }
+	c.ObSuccessNeeds(rule, c.name(f.copy)+"/directories-descended", f.copy, nil, as, isCD, "the call of copyDirectory (the source is a directory)")
 }
 
 type copyFn struct {
